@@ -453,17 +453,22 @@ class BindStateBase:
 
         The expected event is defined by the State's sent_cmd, rcvd_msg methods.
         """
-        try:
-            await asyncio.wait_for(self._fut, timeout)
+        try:  # NOTE: shield, as wait_for() would cancel the future on timeout
+            await asyncio.wait_for(asyncio.shield(self._fut), timeout)
         except TimeoutError:
+            pass
+        if not self._fut.done():
             self._handle_wait_timer_expired(timeout)
-        else:
+        elif self._fut.exception() is None and self._context.state is self:
             self._set_context_state(self._next_ctx_state)
         result: Message = self._fut.result()  # may raise exception
         return result
 
     def _handle_wait_timer_expired(self, timeout: float) -> None:
         """Process an overrun of the wait timer when waiting for a Message."""
+
+        if self._fut.done() or self._context.state is not self:
+            return  # the wait is already over, or is a stale timer of an earlier state
 
         msg = (
             f"{self._context}: Failed to transition to {self._next_ctx_state}: "
@@ -567,8 +572,8 @@ class _DevIsWaitingForMsg(BindStateBase):
 
     def rcvd_msg(self, msg: Message) -> None:
         """If the msg is the waited-for pkt, transition to the next state."""
-        if self.is_phase(msg._pkt, self._expected_pkt_phase):
-            self._fut.set_result(msg)
+        if self.is_phase(msg._pkt, self._expected_pkt_phase) and not self._fut.done():
+            self._fut.set_result(msg)  # not done(): pkts can be repeated (usu. sent x3)
 
 
 class _DevIsReadyToSendCmd(BindStateBase):
@@ -598,7 +603,8 @@ class _DevIsReadyToSendCmd(BindStateBase):
         )
 
         _LOGGER.warning(msg)
-        self._fut.set_exception(exc.BindingFlowFailed(msg))
+        if not self._fut.done():
+            self._fut.set_exception(exc.BindingFlowFailed(msg))
         self._set_context_state(DevHasFailedBinding)
 
     def send_cmd(self, cmd: Command) -> None:
@@ -614,7 +620,7 @@ class _DevIsReadyToSendCmd(BindStateBase):
 
     def rcvd_msg(self, msg: Message) -> None:
         """If the msg is the echo of the sent cmd, transition to the next state."""
-        if self._cmd and msg._pkt == self._cmd:
+        if self._cmd and msg._pkt == self._cmd and not self._fut.done():
             self._fut.set_result(msg)
 
 
@@ -629,8 +635,8 @@ class _DevSendCmdUntilReply(_DevIsWaitingForMsg, _DevIsReadyToSendCmd):
         """If the msg is the expected reply, transition to the next state."""
         # if self._cmd and msg._pkt == self._cmd:  # the echo
         #     self._set_context_state(self._next_ctx_state)
-        if self.is_phase(msg._pkt, self._expected_pkt_phase):
-            self._fut.set_result(msg)
+        if self.is_phase(msg._pkt, self._expected_pkt_phase) and not self._fut.done():
+            self._fut.set_result(msg)  # not done(): pkts can be repeated (usu. sent x3)
 
 
 class DevHasFailedBinding(BindStateBase):
